@@ -81,7 +81,7 @@ let rand_after_seed (seed : int) : int =
   let s = add (mul (of_int seed) 1103515245L) 12345L in
   to_int (logand (shift_right_logical s 16) 0x7fffffffL)
 
-let run_history (toks : string list) : string =
+let run_history (loop : bool) (toks : string list) : string =
   match toks with
   | topd :: pass :: checkip :: myip :: netbits :: mtu :: nsip :: bindport :: rest ->
       let cfg = { c_topdomain = bytes_of_hex topd;
@@ -92,11 +92,22 @@ let run_history (toks : string list) : string =
                   c_bind = ios bindport <> 0 } in
       let (ips, _) = init_users (nn (inet_addr myip)) (nat (ios netbits)) in
       let st = ref (init_state ips) in
+      let prev = ref (nn 0) in
       let events = String.split_on_char ';' (String.concat " " rest) in
       let res = Stdlib.List.filter_map (fun ev ->
           let t = Stdlib.List.filter (fun s -> s <> "") (String.split_on_char ' ' (String.trim ev)) in
           let result =
             match t with
+            | [ "X"; now; seed; from; dest; dg ] when loop ->
+                let d = if dest = "-" then None else Some (bytes_of_hex dest) in
+                Some (siter login_stub zc_frame unz_frame cfg !st !prev
+                        (SLDgram (nn (ios now), nn (rand_after_seed (ios seed)), parse_addr from, d, bytes_of_hex dg)))
+            | [ "T"; now; pk ] when loop -> Some (siter login_stub zc_frame unz_frame cfg !st !prev (SLTun (nn (ios now), bytes_of_hex pk)))
+            | [ "S"; now ] when loop -> Some (siter login_stub zc_frame unz_frame cfg !st !prev (SLTimeout (nn (ios now))))
+            | [ "B"; now; seed; from; dest; dg; pk ] when loop ->
+                let d = if dest = "-" then None else Some (bytes_of_hex dest) in
+                Some (siter login_stub zc_frame unz_frame cfg !st !prev
+                        (SLBoth (nn (ios now), bytes_of_hex pk, nn (rand_after_seed (ios seed)), parse_addr from, d, bytes_of_hex dg)))
             | [ "X"; now; seed; from; dest; dg ] ->
                 let d = if dest = "-" then None else Some (bytes_of_hex dest) in
                 Some (recv_datagram login_stub unz_frame cfg !st (nn (ios now)) (nn (rand_after_seed (ios seed)))
@@ -112,6 +123,7 @@ let run_history (toks : string list) : string =
           | (_, None) -> Some "BADEVENT"
           | (_, Some (st', outs)) ->
               st := st';
+              (match t with _ :: now :: _ -> prev := nn (ios now) | _ -> ());
               let sends = ref [] and tuns = ref [] in
               Stdlib.List.iter (fun o ->
                   match o with
@@ -140,12 +152,15 @@ let run_history (toks : string list) : string =
                       (String.concat "" (Stdlib.List.map (fun (a, d) -> " " ^ show_addr a ^ "=" ^ sum_of_bytes d ^ decoded d) sends))
                       (Stdlib.List.length tuns)
                       (String.concat "" (Stdlib.List.map (fun d -> " " ^ sum_of_bytes d) tuns))
-                      (state_digest !st))) events in
+                      (* the real loop is observed at its next select() call, i.e. after the next iteration's clear loop
+                         (which runs before the clock moves) *)
+                      (state_digest (if loop then (match t with _ :: now :: _ -> sweep_clear !st (nn (ios now)) | _ -> !st) else !st)))) events in
       String.concat " ; " res
   | _ -> "BADHISTORY"
 
 let run_line (line : string) : string =
   let toks = Stdlib.List.filter (fun s -> s <> "") (String.split_on_char ' ' (String.trim line)) in
   match toks with
-  | "H" :: rest -> run_history rest
+  | "H" :: rest -> run_history false rest
+  | "L" :: rest -> run_history true rest
   | _ -> "UNKNOWN-CASE"
